@@ -336,6 +336,11 @@ def _rule_cases(R, rng, rfi, quick):
             v[i] += rng.choice([-1, 1]) * 0.05 * 10 ** rng.uniform(8, 10)
             v[j] += 1.0
             vecs.append(("masked", v))
+            # a small spread on a large pedestal (channel variances of a bright, stable band): the outlier is 8 spreads out although every
+            # value agrees with the first to a few parts in 1e6
+            v = 1000.0 + nprng.normal(0, 1e-3, n)
+            v[rng.randrange(n)] += rng.choice([-1, 1]) * rng.uniform(8e-3, 9e-3)
+            vecs.append(("pedestal", v))
         vecs.append(("allequal", np.full(n, rng.choice([0.0, 1.0, -7.5, 1e4]))))
         vecs.append(("twovalued", np.where(np.arange(n) % 2 == 0, 1.0, 3.0)))
         vecs.append(("ints", nprng.integers(-20, 20, n).astype(np.float64)))
